@@ -80,6 +80,20 @@ static void tgsw_row_noise(std::vector<std::vector<uint32_t>> &e, const TGswSamp
     }
 }
 
+// The library's ACTUAL gadget digits, captured at the interposed decomposition (one call per TLWE component): the prediction must
+// not depend on the digit convention (truncating or rounding decompositions are both admissible), only on what C12 states:
+// digits in [-Bg/2, Bg/2) and recomposition within one unit 2^(32 - l*Bgbit) of the input.
+struct DigitCapture {
+    int N, l; std::vector<std::vector<int32_t>> dig; int calls = 0;
+    static void cb(void *ctx, int fn, int phase, void **a) {
+        if (fn != F_DECOMP || phase != 1) return;
+        DigitCapture *d = (DigitCapture *) ctx;
+        const IntPolynomial *res = (const IntPolynomial *) a[0];
+        for (int q = 0; q < d->l; q++) d->dig.emplace_back(res[q].coefs, res[q].coefs + d->N);
+        d->calls++;
+    }
+};
+
 // predicted phase of  TGSW(m) (*) c  at coefficient j:  sum_p (dec_p * e_p)_j + (m * phase(c_hat))_j
 struct ExtPred {
     std::vector<std::vector<int32_t>> dec;   // kpl x N
@@ -96,6 +110,31 @@ struct ExtPred {
         }
         obs::tlwe_phase(ph_hat, hat, cx.S.data(), N, k);
         delete_TLweSample(hat);
+    }
+    // replace the observer's digits by the captured ones (if the capture is complete); returns a description of a C12-type defect
+    std::string adopt(const DigitCapture &cap, const TLweSample *c, LowCtx &cx) {
+        const int N = cx.N, k = cx.k, l = cx.l;
+        if (cap.calls != k + 1 || (int) cap.dig.size() != (k + 1) * l) return "";
+        const int32_t half = 1 << (cx.Bgbit - 1);
+        const uint32_t unit = (l * cx.Bgbit >= 32) ? 1u : (1u << (32 - l * cx.Bgbit));
+        TLweSample *hat = new_TLweSample(cx.tp);
+        std::string bad;
+        for (int u = 0; u <= k; u++) for (int j = 0; j < N; j++) {
+            uint32_t rec = 0;
+            for (int q = 0; q < l; q++) {
+                int32_t d = cap.dig[(size_t) (u * l + q)][(size_t) j];
+                if ((d < -half || d >= half) && bad.empty()) bad = fmt("digit %d of component %d coefficient %d is %d, outside [-Bg/2, Bg/2)", q, u, j, d);
+                rec += (uint32_t) d << (32 - (q + 1) * cx.Bgbit);
+            }
+            int32_t dev = (int32_t) (rec - (uint32_t) c->a[u].coefsT[j]);
+            if ((dev <= -(int64_t) unit || dev >= (int64_t) unit) && !(l * cx.Bgbit >= 32 && dev == 0) && bad.empty())
+                bad = fmt("digits of component %d coefficient %d recompose to a value %d units away from the input (must be < %u)", u, j, dev, unit);
+            hat->a[u].coefsT[j] = (int32_t) rec;
+        }
+        dec = cap.dig;
+        obs::tlwe_phase(ph_hat, hat, cx.S.data(), N, k);
+        delete_TLweSample(hat);
+        return bad;
     }
     uint32_t at(int j, const std::vector<std::vector<uint32_t>> &e, const int32_t *m, int N) const {
         uint32_t acc = obs::negacyclic_coef(m, ph_hat.data(), N, j);
@@ -205,6 +244,8 @@ static void op_extprod(const Op &o, LowCtx &cx, RunResult &r, int opi) {
     fill_tlwe(c, rr, (int) o.geti("cin"), cx);
     std::vector<std::vector<uint32_t>> e; tgsw_row_noise(e, g, m.data(), cx);
     ExtPred pred; pred.prepare(c, cx);
+    DigitCapture cap; cap.N = N; cap.l = cx.l;
+    ObserverScope capscope(DigitCapture::cb, &cap);
     int var = (int) o.geti("var");
     uint64_t hg = hash_tgsw(g, cx.gp), hc = obs::hash_tlwe(c, N, cx.k), hp = hash_tgswparams(cx.gp);
     if (var == 0) {
@@ -236,14 +277,19 @@ static void op_extprod(const Op &o, LowCtx &cx, RunResult &r, int opi) {
     }
     CHECK_UNCHANGED(hash_tgsw(g, cx.gp), hg, "TGSW sample");
     CHECK_UNCHANGED(hash_tgswparams(cx.gp), hp, "params");
-    // C09: phase(out) = m*phase(c_hat) + sum dec*e  (exact up to the FFT rounding of the products)
+    // C09: phase(out) = m*phase(c_hat) + sum dec*e  (exact up to the FFT rounding of the products), with the library's own digits
+    {
+        std::string bad = pred.adopt(cap, c, cx);
+        if (cap.calls == cx.k + 1) r.probes.add("digits_captured_at_seam"); else r.probes.add("digits_not_captured_observer_digits_used");
+        if (!bad.empty()) r.v.raise("gadget-digits", "C09.decomposition", fmt("%s (l=%d Bgbit=%d): %s", what, cx.l, cx.Bgbit, bad.c_str()), opi);
+    }
     std::vector<uint32_t> pho; obs::tlwe_phase(pho, out, cx.S.data(), N, cx.k);
     double tol = fft_tol_units(cx.gp->kpl, cx.Bgbit, cx.k, cx.N);
     int js[9] = {0, N - 1}; for (int q = 2; q < 9; q++) js[q] = (int) rr.below((uint64_t) N);
     for (int q = 0; q < 9 && !r.v.set; q++) {
         uint32_t want = pred.at(js[q], e, m.data(), N);
         int32_t d = sdiff(pho[(size_t) js[q]], want);
-        r.stats["extprod.maxdiff"] = std::max(r.stats["extprod.maxdiff"], std::fabs((double) d) / tol);
+        r.stats["extprod_ratio.max"] = std::max(r.stats["extprod_ratio.max"], std::fabs((double) d) / tol);
         if (std::fabs((double) d) > tol)
             r.v.raise("extprod-phase", "C09.predicted", fmt("%s (l=%d Bgbit=%d k=%d m-type %d): phase coefficient %d is %d, predicted %d from digits and row noises (difference %d units, tolerance %.0f)", what, cx.l, cx.Bgbit, cx.k, (int) o.geti("m"), js[q], (int32_t) pho[(size_t) js[q]], (int32_t) want, d, tol), opi);
     }
@@ -271,6 +317,8 @@ static void op_muxrot(const Op &o, LowCtx &cx, RunResult &r, int opi) {
         tmp->a[u].coefsT[j] = (int32_t) ((uint32_t) (sgn * (int64_t) acc->a[u].coefsT[src]) - (uint32_t) acc->a[u].coefsT[j]);
     }
     ExtPred pred; pred.prepare(tmp, cx);
+    DigitCapture cap; cap.N = N; cap.l = cx.l;
+    ObserverScope capscope(DigitCapture::cb, &cap);
     std::vector<uint32_t> phacc; obs::tlwe_phase(phacc, acc, cx.S.data(), N, cx.k);
     uint64_t hacc = obs::hash_tlwe(acc, N, cx.k), hg = hash_tgsw(g, cx.gp);
     if (fft) {
@@ -284,6 +332,10 @@ static void op_muxrot(const Op &o, LowCtx &cx, RunResult &r, int opi) {
     }
     CHECK_UNCHANGED(obs::hash_tlwe(acc, N, cx.k), hacc, "accum");
     CHECK_UNCHANGED(hash_tgsw(g, cx.gp), hg, "bki");
+    {
+        std::string bad = pred.adopt(cap, tmp, cx);   // recomposition is compared with the observer's own (X^a - 1) * ACC
+        if (!bad.empty()) r.v.raise("gadget-digits", "C09.decomposition", fmt("%s (l=%d Bgbit=%d, exponent %d): %s", what, cx.l, cx.Bgbit, a, bad.c_str()), opi);
+    }
     std::vector<uint32_t> pho; obs::tlwe_phase(pho, res, cx.S.data(), N, cx.k);
     double tol = fft_tol_units(cx.gp->kpl, cx.Bgbit, cx.k, cx.N);
     int js[6] = {0, N - 1}; for (int q = 2; q < 6; q++) js[q] = (int) rr.below((uint64_t) N);
